@@ -38,7 +38,7 @@ CODECS = 'the ten Gallina codecs equal CPython\'s (codec family: 20k encode/deco
 JSON = 'json.loads is a per-case oracle recorded from the implementation run; json.dumps(indent=4, sort_keys, separators) = Json.json_dump (stream family, byte for byte)'
 
 PROPS = {
-    'C01': dict(families=[_stream, _nesting], trusted_base=[PY, CODECS, JSON]),
+    'C01': dict(families=[_stream, _nesting], extra_props=['C01_sequence'], trusted_base=[PY, CODECS, JSON]),
     'C02': dict(families=[_stream, _calls], trusted_base=[PY, CODECS, JSON]),
     'C03': dict(families=[_foreign], trusted_base=[PY, CODECS, JSON]),
     'C04': dict(families=[_nesting, _stream], trusted_base=[PY, CODECS]),
